@@ -1116,7 +1116,10 @@ class Normaliser:
         the call operator, if its body can be spliced (captures by reference / this / of never-modified variables: reading them at the call site is the same)"""
         if depth >= self.max_depth + 2:
             return None
-        lam = [n for n in self._orig.get(id(fn), []) if n.get("k") == "Lambda" and n.get("op_decl") is not None and n.get("op_decl") == call.get("cdecl")]
+        cd = call.get("cdecl")
+        # non-generic lambda: the call names the call operator itself; generic lambda: one of its instantiated specialisations (Lambda.op_specs)
+        lam = [n for n in self._orig.get(id(fn), []) if n.get("k") == "Lambda" and cd is not None and
+               ((n.get("op_decl") is not None and n.get("op_decl") == cd) or (n.get("generic") and cd in (n.get("op_specs") or [])))]
         if len(lam) != 1:
             return None
         decls, muts = self._single_assigned(fn)
@@ -1129,8 +1132,12 @@ class Normaliser:
                 for f in lst:
                     if f.d.get("decl") is not None:
                         self._bydecl.setdefault((id(f.facts), f.d["decl"]), f)
-        callee = self._bydecl.get((id(fn.facts), call.get("cdecl")))
-        if callee is None or callee.body is None or callee.body.get("k") != "Block" or self.state.get(id(callee)) == "busy":
+        callee = None
+        if hasattr(fn.facts, "by_decl"):
+            callee = fn.facts.by_decl(cd)
+        if callee is None:
+            callee = self._bydecl.get((id(fn.facts), cd))
+        if callee is None or callee.body is None or callee.body.get("k") != "Block" or self.state.get(id(callee)) == "busy" or callee.tk == "pattern":
             return None
         if len(call.get("a", [])) - 1 != len(callee.params):
             return None
